@@ -3,7 +3,7 @@
 # Applies the seeded change to /repo, runs the property's check, and ALWAYS reverts /repo afterwards.
 P=$1; D=$2; T=${3:-quick}
 # /repo is shared: hold the exclusive repo lock while it is mutated (checks take it shared)
-exec 9>/var/tmp/xv-repo.lock; flock 9; export XV_HOLDS_REPO_LOCK=1
+exec 8>/var/tmp/xv-repo.gate; flock 8; exec 9>/var/tmp/xv-repo.lock; flock 9; export XV_HOLDS_REPO_LOCK=1
 cd /repo || exit 2
 git diff --quiet || { echo "/repo has uncommitted changes; refusing"; exit 2; }
 git apply "$D/patch.diff" || { echo "patch does not apply"; exit 2; }
